@@ -1,17 +1,20 @@
 //! Conformance harness for property C14 (data through pipes and command
 //! substitutions), see /verif/DESIGN.md and spec/Pipe.tla.
 mod e2e;
+mod kunit;
 
 fn main() {
     let args: Vec<String> = std::env::args().collect();
     if args.len() < 2 {
-        eprintln!("usage: yv-c14 <run|one|consts> ...");
+        eprintln!("usage: yv-c14 <run|one|krep|krand|consts> ...");
         std::process::exit(2);
     }
     let rest = &args[2..];
     let code = match args[1].as_str() {
         "run" => e2e::run(rest),
         "one" => e2e::one(rest),
+        "krep" => kunit::krep(rest),
+        "krand" => kunit::krand(rest),
         "consts" => {
             println!(
                 "{}",
